@@ -179,6 +179,25 @@ def simulate(ctx, V, script, f, init):
     return tr
 
 
+def run_process(ctx, stream):
+    """StatementSplitter().process(stream) interpreted: the token lists of the statements it yields"""
+    repo = ctx.repo
+    cls = repo.cls(SPLITTER)
+    o = ME.Obj(_cls=cls)
+    ev = ME.Evaluator(ctx, cls.methods['process'].mod, cls)
+    ev.effects = True
+    if repo.lookup_method(cls, '__init__') is not None:
+        ev._obj_method(o, '__init__')()
+    stmts = ev._obj_method(o, 'process')(list(stream))
+    out = []
+    for st in (stmts if isinstance(stmts, list) else list(stmts)):
+        toks = getattr(st, 'tokens', None)
+        if not isinstance(toks, list):
+            raise ME.Unsupported('process yields something that is not a statement')
+        out.append(toks)
+    return out
+
+
 def simulate_process(ctx, V, script):
     """The same scripts through StatementSplitter.process itself (interpreted with _reset, _change_splitlevel and whatever else it calls),
     fed with the token stream of the script -- items one blank apart (SPELLING['sep'] inside multi-word items).  The trace has one entry per
